@@ -5,6 +5,7 @@ through bardolph.lib.injection or module-attribute substitution.
 import io
 import logging
 import sys
+import threading
 
 from harness import simlan
 from harness.core import REPO
@@ -134,9 +135,10 @@ class RunResult:
         self.machine_fault = None     # text of "Machine stopped due to ..." if the VM faulted
         self.job = None
         self.stdout = None
+        self.timed_out = False
 
 
-def run_script(world, text, job=None, execute=True):
+def run_script(world, text, job=None, execute=True, limit=20.0):
     """Compile (unless a job is given) and execute `text` in `world`; never raises."""
     from bardolph.controller.script_job import ScriptJob
     res = RunResult()
@@ -157,10 +159,16 @@ def run_script(world, text, job=None, execute=True):
     if res.accepted and execute:
         mark = len(world.rec.events)
         nlog = len(world.log.records)
+        # a script that does not end on its own is stopped (and reported) after `limit` seconds
+        timer = threading.Timer(limit, lambda: (setattr(res, 'timed_out', True), job.request_stop()))
+        timer.daemon = True
+        timer.start()
         try:
             job.execute()
         except BaseException as ex:
             res.run_exception = ex
+        finally:
+            timer.cancel()
         res.events = world.rec.events[mark:]
         for level, msg in world.log.records[nlog:]:
             if msg.startswith('Machine stopped due to'):
